@@ -146,33 +146,112 @@ def check_dispatch(ctx, prog):
 
 def check_stop(ctx, prog):
     f = fn1(prog, 'asl::SocketServer::startLoop')
-    g = q.Guarded(f)
-    stores = [e for e in fn_exprs(f) if e.get('k') == 'bin' and e.get('op') == '=' and strip_lv(e['x']).get('f') == '_running']
-    ok = len(stores) == 1 and const_val(stores[0]['y']) == 0
-    why = 'startLoop stores _running %d times' % len(stores)
-    if ok:
-        gs = g.of(stores[0])
-        cond_ok = any(kind == 'if' and pol is True and any(w.get('k') == 'mem' and w.get('f') == '_requestStop' for w in walk_expr(c)) for c, pol, kind in gs)
-        # immediately followed by break in the same block
-        followed = False
-        for s_ in ir.walk_stmts(f['body']):
-            if s_.get('k') == 'block':
-                for i, st in enumerate(s_['s']):
-                    if st.get('k') == 'expr' and st.get('e') is stores[0] and i + 1 < len(s_['s']) and s_['s'][i + 1].get('k') in ('break', 'return'):
-                        followed = True
-        ok = cond_ok and followed
-        why = 'the store `_running = false` is not (guarded by the stop request and immediately followed by leaving the loop): guard ok=%s, leaves loop=%s' % (cond_ok, followed)
-    ctx.check(ok, 'C14.stop', f['pq'], 'startLoop:_running cleared only on the exit path', fwhere(f, stores[0]['l'] if stores else None), 'cleared under the stop request, then break', why)
+    cfg = cfgm.CFG(f)
+    # (a) once `_running = false` is stored, the accept loop is over: no wait / accept is reachable afterwards
+    # (b) every way out of startLoop has stored it (else stop(true) never returns)
+    def is_clear(e):
+        return e.get('k') == 'bin' and e.get('op') == '=' and strip_lv(e['x']).get('f') == '_running' and const_val(e['y']) == 0
+
+    def is_loop_work(e):
+        return e.get('k') == 'call' and (e.get('pq') or '').split('::')[-1] in ('waitInput', 'accept')
+    problems = []
+
+    def step(nd, st):
+        if nd.kind in ('ev', 'decl') and nd.kind == 'ev' and nd.e is not None:
+            if is_clear(nd.e):
+                return True
+            if st and is_loop_work(nd.e):
+                problems.append(nd.line)
+        return st
+    def edge(nd, lab, st):
+        # `while (true)` / `for (;;)`: the constant condition has one feasible edge
+        if nd.kind == 'br' and nd.e is not None and const_val(nd.e) is not None and lab is not None and bool(const_val(nd.e)) != lab:
+            return None
+        return st
+    reached, _ = cfgm.dataflow(cfg, False, step, edge)
+    ctx.evaluations += sum(len(v) for v in reached.values())
+    stores = [e for e in fn_exprs(f) if is_clear(e)]
+    works = [e for e in fn_exprs(f) if is_loop_work(e)]
+    role = 'startLoop:_running cleared only on the exit path'
+    if not stores or not works:
+        if not works:
+            raise AnalysisBroken('startLoop: waitInput()/accept() not found')
+        ctx.violation('C14.stop', f['pq'], role, fwhere(f), 'startLoop never stores `_running = false`: stop(true) waits for ever and running() stays true after the loop has ended')
+    else:
+        exits = reached.get(cfg.exit.id, set())
+        if problems:
+            ctx.violation('C14.stop', f['pq'], role, fwhere(f, problems[0]), 'after `_running = false` was stored the accept loop can still wait for / accept a connection (line %s): stop(true) may return while serve() calls still start' % problems[0])
+        elif False in exits:
+            ctx.violation('C14.stop', f['pq'], role, fwhere(f, stores[0]['l']), 'startLoop can return without storing `_running = false`: stop(true) then waits for ever')
+        else:
+            ctx.ok('C14.stop', f['pq'], role, fwhere(f, stores[0]['l']), 'no wait/accept is reachable after the store, and every exit has passed it')
+    # stop(true): sets the request, then returns only when the loop has ended and no serve() is in flight.  Decided on the CFG
+    # of stop(): with (sync, _running, _numClients) bound, follow only the branch edges their conditions allow, starting after
+    # the poll sleep: the function exit may be reachable without sleeping again only for (_running, _numClients) = (false, 0)
     s = fn1(prog, 'asl::SocketServer::stop')
     ctx.analysed(s)
-    loops = [x for x in ir.walk_stmts(s['body']) if x.get('k') in ('do', 'while')]
-    okw = False
-    if loops:
-        c = loops[0]['c']
-        okw = any(w.get('k') == 'mem' and w.get('f') == '_running' for w in walk_expr(c)) and any(w.get('k') == 'mem' and w.get('f') == '_numClients' for w in walk_expr(c)) and strip(c).get('op') == '||'
-    req = [e for e in fn_exprs(s) if e.get('k') == 'bin' and e.get('op') == '=' and strip_lv(e['x']).get('f') == '_requestStop' and const_val(e['y']) == 1]
-    ctx.check(okw and bool(req), 'C14.stop', s['pq'], 'stop(true):waits for the loop and for every in-flight serve()', fwhere(s), 'sets the request, then waits while (_running || _numClients > 0)',
-              'stop(true) does not set the stop request and wait on (_running || clients in flight)')
+    role = 'stop(true):waits for the loop and for every in-flight serve()'
+    scfg = cfgm.CFG(s)
+    req = [n for n in scfg.nodes if n.kind == 'ev' and n.e is not None and n.e.get('k') == 'bin' and n.e.get('op') == '=' and strip_lv(n.e['x']).get('f') == '_requestStop' and const_val(n.e['y']) == 1]
+    sleeps = [n for n in scfg.nodes if n.kind == 'ev' and n.e is not None and n.e.get('k') == 'call' and (n.e.get('fn') or n.e.get('pq') or '').split('::')[-1] in ('sleep', 'usleep')]
+    if not req:
+        ctx.violation('C14.stop', s['pq'], role, fwhere(s), 'stop() does not set the stop request')
+    elif len(sleeps) != 1:
+        ctx.undecided('C14.stop', s['pq'], role, fwhere(s), 'no single polling sleep found in stop()')
+    else:
+        import bounded
+        sync = s['params'][0]['id'] if s.get('params') else None
+
+        def can_return(running, clients):
+            def bind(e):
+                if e.get('k') == 'mem' and e.get('f') == '_running':
+                    return running
+                if e.get('k') == 'call' and e.get('obj') is not None and is_counter(e['obj']):
+                    op = e.get('op')
+                    if op in ('>', '<', '>=', '<=', '==', '!=') and e.get('a') and const_val(e['a'][0]) is not None:
+                        c = const_val(e['a'][0])
+                        return int({'>': clients > c, '<': clients < c, '>=': clients >= c, '<=': clients <= c, '==': clients == c, '!=': clients != c}[op])
+                    if not e.get('a') and T(s, e.get('t')).get('int'):
+                        return clients          # conversion to int
+                return None
+            ev = bounded.Bound(prog, s, {sync: 1} if sync is not None else {}, {}, bind=bind)
+            seen = set()
+            work = [sleeps[0]]
+            first = True
+            while work:
+                n = work.pop()
+                if n is scfg.exit:
+                    return True
+                if n.id in seen:
+                    continue
+                seen.add(n.id)
+                if n is sleeps[0] and not first:
+                    continue
+                first = False
+                want = None
+                if n.kind == 'br':
+                    want = ev.ev3(n.e)
+                for m, lab in n.succ:
+                    if want is not None and lab is not None and lab != want:
+                        continue
+                    if m is sleeps[0]:
+                        continue
+                    work.append(m)
+            return False
+        res = dict(((r, c), can_return(r, c)) for r in (0, 1) for c in (0, 1, 3))
+        ctx.evaluations += 6
+        early = [k for k, v in res.items() if v and k != (0, 0)]
+        if early:
+            r, c = early[0]
+            ctx.violation('C14.stop', s['pq'], role, fwhere(s, sleeps[0].line), 'stop(true) can return while %s' % (
+                'the accept loop is still running' if r else '%d serve() call(s) are still in flight' % c))
+        elif not res[(0, 0)]:
+            ctx.violation('C14.stop', s['pq'], role, fwhere(s, sleeps[0].line), 'stop(true) never returns: its wait does not end when the loop has stopped and no client is in flight')
+        else:
+            # the request is set before the wait
+            order = [n.id for n in scfg.nodes]
+            ctx.check(req[0].line <= sleeps[0].line, 'C14.stop', s['pq'], role, fwhere(s), 'sets the request, then returns only when !_running && _numClients == 0',
+                      'stop() sets the stop request only after waiting')
     st = fn1(prog, 'asl::SocketServer::start')
     ctx.analysed(st)
     seq = list(fn_exprs(st))
